@@ -506,6 +506,11 @@ def main():
         for order in ((3, 6) if quick else (2, 3, 4, 5, 6)):
             if order + 1 < SHAPE[2]:
                 items.append(('vpar_pg%d' % order, grid, 'radial', None))
+    if not quick:
+        # a second shape whose extents are not divisible by 2 or 3 in r and differ in every direction
+        for grid in [(2, 2), (3, 2), (2, 3), (3, 3), (4, 1)]:
+            for op in ('flux', 'vpar', 'vpar_keep', 'pol', 'pol_keep', 'init_flux_surface', 'init_poloidal', 'init_v_parallel'):
+                items.append((op, grid, 'radial', None, (5, 4, 8, 5)))
     for cn in CANARIES:
         items.append((cn[3], (2, 2), 'radial', cn[:3]))
     caught = {}
